@@ -26,3 +26,7 @@ pub struct ExTokioSleep(tokio::time::Sleep);
 pub assume_specification [tokio::time::sleep] (_0: std::time::Duration) -> tokio::time::Sleep;
 #[verifier::external_body]
 pub broadcast proof fn axiom_fmt_duration() ensures #[trigger] vstd::std_specs::fmt::fmt_req_all::<std::time::Duration>() {}
+// str::eq_ignore_ascii_case compares the ASCII-lower-cased texts (ascii_lower is not interpreted: no clause of this unit may rest on it)
+pub uninterp spec fn ascii_lower(s: Seq<char>) -> Seq<char>;
+pub assume_specification [str::eq_ignore_ascii_case] (a: &str, b: &str) -> (r: bool)
+    ensures r == (ascii_lower(a@) == ascii_lower(b@));
